@@ -138,6 +138,7 @@ func init() {
 			{Module: "MC_C06", ExtraCfg: maxStr(2, 3), Frac: frac(0.5, 1)},
 			{Module: "MC_C07", ExtraCfg: tierCfg, Frac: frac(0.25, 1)},
 			{Module: "MC_C05", Frac: frac(0.02, 0.25)},
+			{Module: "MC_C10", ExtraCfg: tierCfg, Keep: twoDocs}, // two documents of one run: same reference texts / definition names, different targets
 		},
 		Rule: "units = C02's own (objects with declared properties and additionalProperties true/{}/6 typed kinds x every subset of 4 extra keys incl. a Go field name, a case variant and the empty key; 5 string formats x required/optional/item; integers beyond 2^53 and nesting depth 3) plus the units of the C03, C04, C08, C09 families and seeded samples of C05-C07; every document that is valid under the reference semantics must be accepted, its reflective dump must hold every declared value in the field bound to that name (defaults for absent ones, exactly the undeclared keys in AdditionalProperties) and the re-marshalled JSON must reproduce every non-empty declared value. distinct_nontrivial = distinct (unit, document) pairs with a definite reference verdict"}
 }
